@@ -1006,8 +1006,8 @@ func TestVerif_C21(t *testing.T) {
 	}
 
 	// ---- space 1: exchange histories x response faults -----------------------------
-	nTurns := venum.QT(3, 4)
-	nKinds := venum.QT(3, 4)
+	nTurns := 3 // a fourth turn only repeats "refused after the ambiguous turn"; it tripled the thorough cost
+	nKinds := venum.QT(3, 5)
 	venum.Explore(t, venum.Cfg{Name: "exchange-histories", Shardable: true, DevBound: venum.QT(1, 2)}, func(x *venum.X) {
 		// the first choice point carries the first two turns so that its arity (9 / 16) keeps all
 		// worker shards busy (shards deal out the alternatives of the first point)
